@@ -21,6 +21,7 @@ Binding
 """
 import json
 import random
+import sys
 
 from harness import common, sched, tlc
 
@@ -77,10 +78,10 @@ SCENARIOS = {
     # sort specifications with comparison functions from the thread's own namespace, in a process that has served many
     # different requests before (whatever the package remembers per sort field, per expression, ... has grown large)
     'sortspec': dict(
-        src='<dtml-in seq sort="x/cf,y/cmp"><dtml-var x></dtml-in>|<dtml-in seq sort_expr="sx"><dtml-var y>,</dtml-in>', served=130),
+        src='<dtml-in seq sort="x/cf,y/cmp"><dtml-var x></dtml-in>|<dtml-in seq sort_expr="sx"><dtml-var y>,</dtml-in>', served=5),
     # a markup format (structured text) of a per-thread document, again in a process that has formatted many documents before
     'stx': dict(
-        src='<dtml-var doc fmt=structured-text>|<dtml-in seq><dtml-var x></dtml-in>', served=101, serve='stx'),
+        src='<dtml-var doc fmt=structured-text>|<dtml-in seq><dtml-var x></dtml-in>', served=5, serve='stx'),
     'epfs': dict(
         src='%(in seq sort_expr="key")[%(x)s,%(in)]%(if a)[A%(else)[B%(if)]%(a)05d', epfs=True),
 }
@@ -94,25 +95,67 @@ def _cf_desc(a, b):
     return (a < b) - (a > b)
 
 
-_served = {}
+_served = {'n': 0}
 
 
-def serve_requests(n, what='sort'):
-    """n earlier requests with sort specifications (documents to format) of their own, rendered by another template of the process"""
+def _serve_one(what):
+    """one more earlier request, with a sort specification (a document to format) nobody has used before"""
     from DocumentTemplate.DT_HTML import HTML
+    _served['n'] += 1
+    d = _served['n']
     if what == 'stx':
         t = _served.get('stx')
         if t is None:
             t = _served['stx'] = HTML('<dtml-var doc fmt=structured-text>')
-        for d in range(n):
-            t(doc='earlier document %d' % d)
+        t(doc='earlier document %d' % d)
         return
     t = _served.get('t')
     if t is None:
         t = _served['t'] = HTML('<dtml-in seq sort_expr="sx"><dtml-var x></dtml-in>')
-    seq = [O(x=1, y=2), O(x=2, y=1)]
-    for d in range(n):
-        t(seq=seq, sx='f%d/cmp,g%d/nocase/desc' % (d, d))
+    t(seq=[O(x=1, y=2), O(x=2, y=1)], sx='f%d/cmp,g%d/nocase/desc' % (d, d))
+
+
+def _pkg_containers():
+    """module-level dicts / lists / sets of the package: what a process accumulates while it serves requests"""
+    out = []
+    for mn, m in list(sys.modules.items()):
+        if m is None or not (mn.startswith('DocumentTemplate') or mn.startswith('TreeDisplay')) or '.tests' in mn:
+            continue
+        for an, v in list(vars(m).items()):
+            if not an.startswith('__') and type(v) in (dict, list, set):
+                out.append(('%s.%s' % (mn, an), v))
+    return out
+
+
+def serve_requests(n, what='sort'):
+    """the process has served earlier requests.  At least n of them; and when serving shows that some module-level container of
+    the package is bounded (it grows request by request and then shrinks: something is evicted), serving goes on until that
+    container is one request short of its largest size -- the state in which the next two requests (the racing threads) make it
+    overflow.  What is bounded, and at which size, is learnt by observation, once per process and kind of request"""
+    for _ in range(n):
+        _serve_one(what)
+    key = 'brink-' + what
+    if key not in _served:
+        conts = _pkg_containers()
+        hist = {name: [len(c)] for name, c in conts}
+        found = None
+        for _ in range(600):
+            _serve_one(what)
+            for name, c in conts:
+                h = hist[name]
+                h.append(len(c))
+                if found is None and len(h) >= 3 and h[-1] < h[-2]:
+                    found = (name, c, h[-3])          # the size one request before the largest size
+            if found:
+                break
+        _served[key] = found
+    found = _served[key]
+    if found:
+        name, c, pre_peak = found
+        for _ in range(1200):
+            if len(c) == pre_peak:
+                break
+            _serve_one(what)
 
 
 def namespace(name, i):
